@@ -290,7 +290,12 @@ func (ocm *outgoingConnManager) run(ch chan<- outgoingConn) {
 			open := buildopen(fsm.gConf, &conf)
 			fsm.pConf.Update(&conf)
 			fsm.lock.Unlock()
-			b, _ := open.Serialize()
+			b, err := open.Serialize()
+			if err != nil {
+				fsm.logger.Error("failed to serialize OPEN message", slog.String("Error", err.Error()))
+				conn.Close()
+				continue
+			}
 
 			conn.SetWriteDeadline(time.Now().Add(time.Second))
 			if _, err := conn.Write(b); err != nil {
@@ -997,9 +1002,13 @@ func (h *fsmHandler) active(ctx context.Context) (bgp.FSMState, *fsmStateReason)
 			fsm.pConf.Update(&conf)
 			fsm.lock.Unlock()
 
-			b, _ := m.Serialize()
+			b, err := m.Serialize()
+			if err != nil {
+				fsm.logger.Error("failed to serialize OPEN message", slog.String("Error", err.Error()))
+				return bgp.BGP_FSM_IDLE, newfsmStateReason(fsmWriteFailed, nil, []byte(err.Error()))
+			}
 			conn.SetWriteDeadline(time.Now().Add(time.Second))
-			_, err := conn.Write(b)
+			_, err = conn.Write(b)
 			if err == nil {
 				fsm.bgpMessageStateUpdate(m.Header.Type, false)
 				return bgp.BGP_FSM_OPENSENT, newfsmStateReason(fsmNewConnection, nil, nil)
